@@ -496,7 +496,8 @@ Definition dec_finish (m : msg) : msg :=
   if negb (m_err m =? e_success) && negb (soft_err (m_err m)) then msg_reset m else m.
 
 (* dec_process_msg up to the reply; returns the reply message, the new replay state and the key
-   inserted by this request (for the roll-back when the reply cannot be sent) *)
+   inserted by this request (for the roll-back when the reply cannot be sent; None when the request added nothing:
+   every failure, and a retry that was allowed to replay an existing record) *)
 Definition dec_process (cf : conf) (is_member : N -> N -> bool) (rs : rstate)
            (m : msg) (peer_uid peer_gid now : N) : msg * rstate * option rkey :=
   let finish := dec_finish in
@@ -520,13 +521,14 @@ Definition dec_process (cf : conf) (is_member : N -> N -> bool) (rs : rstate)
       let k := cred_rkey tag m in
       if r_mem k rs then
         if cf_socket_retry cf && (0 <? m_retry m) && (m_retry m <=? c_retry_attempts)
-        then (m, rs, Some k)   (* rc = 0: a failed send removes the key, whoever inserted it *)
+        then (m, rs, None)     (* rc = 0, but this request added nothing (c->is_replay_new = 0): a failed send leaves
+                                  the record of the earlier decode in place *)
         else (finish (set_err m e_cred_replayed None), rs, None)
       else (m, k :: rs, Some k)
     end
   end.
 
-(* reply could not be delivered: dec_process_msg removes the key it inserted *)
+(* reply could not be delivered: dec_process_msg removes the key THIS request inserted (c->is_replay_new) *)
 Definition dec_rollback (rs : rstate) (k : option rkey) : rstate :=
   match k with Some k => r_remove k rs | None => rs end.
 
